@@ -446,6 +446,74 @@ class C05(Prop):
         res += self.entry_points()
         res.append(("note", "source inventory: %d CloseStream implementors, all with the default methods; error cell and "
                     "connection waker are used only in shared_state.rs and connection_error_creators.rs" % n_impl, {}))
+        res += self.sibling_inventory()
+        return res
+
+    def sibling_inventory(self):
+        """The same questions for the sibling crates, whose handles share the connection's `SharedState`, and for the places
+        where a `ConnectionError` value is BUILT (a handle that builds one itself can report another error than the cell's).
+        Expected, and re-read on every run (anything else is `BROKEN`): h3-datagram and h3-webtransport implement
+        `ConnectionState` with `shared_state` only and `CloseStream` with the default methods; the only direct use of the
+        cell outside h3 is `DatagramSender::handle_send_datagram_error` (`set_conn_error_and_wake`, result dropped), which is
+        also the only place outside `connection_error_creators.rs` that builds a `ConnectionError` — finding D-05g, executed
+        on the real code by the `cell dg` lines."""
+        res = []
+        n_state = n_close = 0
+        direct, built = {}, {}
+        for crate in ("h3", "h3-datagram", "h3-webtransport", "h3-quinn"):
+            for d, _, fs in os.walk(os.path.join(vlib.REPO, crate, "src")):
+                if os.sep + "tests" in d:
+                    continue
+                for f in sorted(fs):
+                    if not f.endswith(".rs"):
+                        continue
+                    rel = os.path.relpath(os.path.join(d, f), vlib.REPO)
+                    code = "\n".join(ln.split("//")[0] for ln in open(os.path.join(d, f)).read().split("\n"))
+                    if crate != "h3":
+                        for m in re.finditer(r"impl\s*(<[^{]*?>)?\s*CloseStream\s+for\s+[^{]*\{([^}]*)\}", code, re.S):
+                            n_close += 1
+                            if m.group(2).strip():
+                                res.append(("broken", "sibling inventory: %s overrides a CloseStream method" % rel, {}))
+                        for m in re.finditer(r"impl\s*(<[^{]*?>)?\s*ConnectionState\s+for\s+[^{]*\{(.*?)\n\}", code, re.S):
+                            n_state += 1
+                            fns = re.findall(r"fn\s+(\w+)", m.group(2))
+                            if fns != ["shared_state"]:
+                                res.append(("broken", "sibling inventory: %s overrides ConnectionState methods %s" % (rel, fns), {}))
+                        for pat in (r"\.connection_error\b", r"waker\(\)\s*\.\s*(register|wake|take)", r"\bget_conn_error\s*\(",
+                                    r"\bset_conn_error(_and_wake)?\s*\("):
+                            n = len(re.findall(pat, code))
+                            if n:
+                                direct[(rel, pat)] = n
+                    # `ConnectionError::X` followed by `=>` / `if` / `{ error }` inside a `match` is a pattern; what is left
+                    # is counted per file and compared with the expected table
+                    n = 0
+                    for m in re.finditer(r"\bConnectionError::(Local|Remote|Timeout)\b", code):
+                        if re.search(r"\b(quinn|quic)::\s*$", code[max(0, m.start() - 8):m.start()]):
+                            continue
+                        tail = code[m.end():m.end() + 160]
+                        if re.match(r"\s*(\{[^}]*\}|\([^)]*\)(\s*\))?)?\s*(=>|if\b)", tail, re.S):
+                            continue
+                        n += 1
+                    if n:
+                        built[rel] = n
+        want_direct = {("h3-datagram/src/datagram_handler.rs", r"\bset_conn_error(_and_wake)?\s*\("): 1}
+        if direct != want_direct:
+            res.append(("broken", "sibling inventory: direct uses of the error cell / waker in the sibling crates are %s, expected "
+                        "only DatagramSender::handle_send_datagram_error (D-05g)" % sorted(direct.items()), {}))
+        want_built = {"h3/src/error/connection_error_creators.rs": 7, "h3-datagram/src/datagram_handler.rs": 1}
+        got = {k: v for k, v in built.items() if not k.endswith("error/error.rs")}
+        if got != want_built:
+            res.append(("broken", "sibling inventory: ConnectionError values are built in %s, expected %s (the common conversion, "
+                        "the two *_raw paths used before the connection exists, and the datagram sender: D-05g)"
+                        % (sorted(got.items()), sorted(want_built.items())), {}))
+        if n_state < 4 or n_close < 2:
+            res.append(("broken", "sibling inventory: found only %d ConnectionState / %d CloseStream implementors in the sibling "
+                        "crates (parser out of date?)" % (n_state, n_close), {}))
+        if not any(k == "broken" for k, _, _ in res):
+            res.append(("note", "sibling inventory: h3-datagram / h3-webtransport: %d ConnectionState implementors (shared_state only), "
+                        "%d CloseStream implementors (default methods); one direct use of the cell outside h3 and one "
+                        "ConnectionError built outside connection_error_creators.rs (7 there), both in "
+                        "DatagramSender::handle_send_datagram_error = finding D-05g (lines `cell dg`)" % (n_state, n_close), {}))
         return res
 
 
